@@ -156,6 +156,57 @@ func runC12(p *load.Program, r *oblig.Report) {
 	c12SendRequest(p, r)
 	c12SortSearch(p, r)
 	c12Refresher(p, r)
+	c12PoolUpdateOrder(p, r)
+	c12LegacyNegotiate(p, r, "C12.R2 version-selection table")
+}
+
+// c12LegacyNegotiate: the hand-written Conn picks one of its hard-coded versions only under the test that the
+// broker's advertised maximum is at least that version (shared with C04: "a version no higher than the broker
+// advertised").
+func c12LegacyNegotiate(p *load.Program, r *oblig.Report, rule string) {
+	fn := p.Func("", "(apiVersionMap).negotiate")
+	if fn == nil {
+		r.Lost(rule, "kafka.(apiVersionMap).negotiate")
+		return
+	}
+	n := 0
+	an.EachInstr(fn, func(ins ssa.Instruction) {
+		ret, ok := ins.(*ssa.Return)
+		if !ok || len(ret.Results) != 1 {
+			return
+		}
+		if k, isK := an.ConstInt(an.RetVal(ret, 0)); isK && k == -1 {
+			return
+		}
+		n++
+		val := clean(an.ShapeCanon(an.RetVal(ret, 0)))
+		okGuard := false
+		var conds []string
+		for _, c := range selConds(ret) {
+			c = clean(c)
+			conds = append(conds, c)
+			// (MaxVersion >= s)
+			if strings.HasSuffix(c, " >= "+val+")") && strings.Contains(c, ".MaxVersion") {
+				okGuard = true
+			}
+		}
+		r.Check(okGuard, rule, "kafka.(apiVersionMap).negotiate returns a version only when the broker's maximum is at least that version", p.Pos(ret.Pos()), "if apiVersion(x.MaxVersion) >= s { return s }", strings.Join(conds, " ∧ "))
+	})
+	r.RequireCount(rule+" (legacy negotiate returns)", n, 1)
+	// candidates are tried from the highest down
+	okDesc := false
+	for _, b := range an.Blocks(fn) {
+		for _, ins := range b.Instrs {
+			if bo, ok := ins.(*ssa.BinOp); ok && bo.Op == token.SUB {
+				if k, isK := an.ConstInt(bo.Y); isK && k == 1 {
+					if _, isPhi := bo.X.(*ssa.Phi); isPhi {
+						okDesc = true
+					}
+				}
+			}
+		}
+	}
+	r.Check(okDesc, rule, "kafka.(apiVersionMap).negotiate tries its candidates from the highest version down", p.Pos(fn.Pos()), "for i := len(versions)-1; i >= 0; i--", "no descending index")
 }
 
 // dispatchOrder returns the interfaces asserted on parameter `req` of sendRequest, in dominance order.
@@ -817,6 +868,40 @@ func c12SortSearch(p *load.Program, r *oblig.Report) {
 		}
 	})
 	r.RequireCount(rule+" (findMetadataTopic call in filterMetadataResponse)", n, 1)
+	// the cached response is shared by every caller: the filtered list is built in fresh storage, never in the
+	// backing array of the cached list
+	nw := 0
+	var shared []string
+	an.EachInstr(filter, func(ins ssa.Instruction) {
+		st, ok := ins.(*ssa.Store)
+		if !ok {
+			return
+		}
+		fa, ok := st.Addr.(*ssa.FieldAddr)
+		if !ok || an.FieldName(fa.X.Type(), fa.Field) != "Topics" {
+			return
+		}
+		nw++
+		var roots []ssa.Value
+		appendRoots(st.Val, map[ssa.Value]bool{}, &roots)
+		for _, rt := range roots {
+			switch x := an.Unwrap(rt).(type) {
+			case *ssa.MakeSlice:
+				continue
+			case *ssa.Const:
+				if x.Value == nil {
+					continue
+				}
+			case *ssa.Slice:
+				if _, isAlloc := x.X.(*ssa.Alloc); isAlloc {
+					continue
+				}
+			}
+			shared = append(shared, p.Pos(st.Pos())+": "+clean(an.Shape(rt)))
+		}
+	})
+	r.Check(nw > 0 && len(shared) == 0, rule, "kafka.filterMetadataResponse → the filtered topic list is built in fresh storage", p.Pos(filter.Pos()),
+		"ret.Topics = make(...) (the cached response is never written)", strings.Join(shared, "; "))
 }
 
 // sortsByField recognises `sort.Slice(x, func(i,j) bool { return x[i].F < x[j].F })`.
@@ -947,4 +1032,49 @@ func c12Refresher(p *load.Program, r *oblig.Report) {
 		r.Check(okExit, rule, fmt.Sprintf("connPool.discover → exit #%d", n), p.Pos(ret.Pos()), "return only on the pool context: errors.Is(err, ctx.Err()) or <-ctx.Done()", "an exit that does not depend on the pool context", why)
 	})
 	r.RequireCount(rule, n, 2)
+}
+
+// c12PoolUpdateOrder: R8 — a broker whose address changed is in both the set of groups to discard and the set of
+// groups to create; its new connection group must be installed after the old one was discarded, otherwise the
+// discard removes the group just installed and nothing routes to that broker any more.
+func c12PoolUpdateOrder(p *load.Program, r *oblig.Report) {
+	const rule = "C12.R8 a moved broker's connection group is replaced, not lost"
+	upd := p.Func("", "(*connPool).update")
+	if upd == nil {
+		r.Lost(rule, "kafka.(*connPool).update")
+		return
+	}
+	isConns := func(v ssa.Value) bool { return strings.HasSuffix(clean(an.Shape(v)), ".conns") }
+	var adds, dels []ssa.Instruction
+	an.EachInstr(upd, func(ins ssa.Instruction) {
+		switch x := ins.(type) {
+		case *ssa.MapUpdate:
+			if isConns(x.Map) {
+				adds = append(adds, x)
+			}
+		case *ssa.Call:
+			if b, ok := x.Call.Value.(*ssa.Builtin); ok && b.Name() == "delete" && isConns(x.Call.Args[0]) {
+				dels = append(dels, x)
+			}
+		}
+	})
+	if len(adds) == 0 || len(dels) == 0 {
+		r.Lost(rule, "p.conns[id] = … / delete(p.conns, id) in kafka.(*connPool).update")
+		return
+	}
+	where := ""
+	for _, a := range adds {
+		q := an.PathQuery{Fn: upd, Target: func(i ssa.Instruction) bool {
+			for _, d := range dels {
+				if i == d {
+					return true
+				}
+			}
+			return false
+		}}
+		if hit := q.ReachableFrom(an.PointOf(a)); hit != nil {
+			where = "delete(p.conns, id) at " + p.Pos(hit.Pos()) + " can run after the group was installed at " + p.Pos(a.Pos())
+		}
+	}
+	r.Check(where == "", rule, "kafka.(*connPool).update", p.Pos(upd.Pos()), "groups of removed or moved brokers are deleted before the new groups are installed", where)
 }
